@@ -1294,8 +1294,9 @@ static int set_client_attr(struct xcm_socket *s, void *context,
 {
     struct btls_socket *bts = TOBTLS(s);
 
-    if (s->type == xcm_socket_type_conn &&
-	bts->conn.state != conn_state_initialized) {
+    if ((s->type == xcm_socket_type_conn &&
+	 bts->conn.state != conn_state_initialized) ||
+	(s->type == xcm_socket_type_server && bts->server.created)) {
 	errno = EACCES;
 	return -1;
     }
@@ -1316,8 +1317,9 @@ static int set_early_bool_attr(struct xcm_socket *s, bool *attr,
 {
     struct btls_socket *bts = TOBTLS(s);
 
-    if (s->type == xcm_socket_type_conn &&
-	bts->conn.state != conn_state_initialized) {
+    if ((s->type == xcm_socket_type_conn &&
+	 bts->conn.state != conn_state_initialized) ||
+	(s->type == xcm_socket_type_server && bts->server.created)) {
 	errno = EACCES;
 	return -1;
     }
@@ -1368,8 +1370,9 @@ static int set_file_attr(struct xcm_socket *s, const void *filename,
 {
     struct btls_socket *bts = TOBTLS(s);
 
-    if (s->type == xcm_socket_type_conn &&
-	    bts->conn.state != conn_state_initialized) {
+    if ((s->type == xcm_socket_type_conn &&
+	 bts->conn.state != conn_state_initialized) ||
+	(s->type == xcm_socket_type_server && bts->server.created)) {
 	    errno = EACCES;
 	    return -1;
 	}
@@ -1460,8 +1463,9 @@ static int set_value_attr(struct xcm_socket *s, const void *value, size_t len,
 {
     struct btls_socket *bts = TOBTLS(s);
 
-    if (s->type == xcm_socket_type_conn &&
-	    bts->conn.state != conn_state_initialized) {
+    if ((s->type == xcm_socket_type_conn &&
+	 bts->conn.state != conn_state_initialized) ||
+	(s->type == xcm_socket_type_server && bts->server.created)) {
 	    errno = EACCES;
 	    return -1;
 	}
@@ -1553,8 +1557,9 @@ static int set_verify_peer_name_attr(struct xcm_socket *s, void *context,
 {
     struct btls_socket *bts = TOBTLS(s);
 
-    if (s->type == xcm_socket_type_conn &&
-	bts->conn.state != conn_state_initialized) {
+    if ((s->type == xcm_socket_type_conn &&
+	 bts->conn.state != conn_state_initialized) ||
+	(s->type == xcm_socket_type_server && bts->server.created)) {
 	errno = EACCES;
 	return -1;
     }
@@ -1577,8 +1582,9 @@ static int set_peer_names_attr(struct xcm_socket *s, void *context,
 {
     struct btls_socket *bts = TOBTLS(s);
 
-    if (s->type == xcm_socket_type_conn &&
-	bts->conn.state != conn_state_initialized) {
+    if ((s->type == xcm_socket_type_conn &&
+	 bts->conn.state != conn_state_initialized) ||
+	(s->type == xcm_socket_type_server && bts->server.created)) {
 	errno = EACCES;
 	return -1;
     }
